@@ -149,3 +149,38 @@ func init() {
 		}
 	}
 }
+
+func init() {
+	// baseline: list the keys of the obligations that do not discharge on the current tree (candidates for spec/unclaimed.json)
+	extraCmds["baseline"] = func(args []string) {
+		w, err := LoadWorld("/repo", []string{"/verif/spec/extern"})
+		if err != nil {
+			panic(err)
+		}
+		w.computeModsets()
+		_, obls := genAll(w, nil)
+		var sel []*Obligation
+		for _, o := range obls {
+			if !sweepExclude.MatchString(o.Fn) {
+				sel = append(sel, o)
+			}
+		}
+		d := NewDischarger("/verif/cache", true, 20)
+		defer d.Close()
+		d.RunAll(w, sel, 16)
+		out := map[string]string{}
+		for _, o := range sel {
+			if o.Status != "discharged" {
+				out[o.Key()] = o.Status
+			}
+		}
+		var ks []string
+		for k := range out {
+			ks = append(ks, k)
+		}
+		sort.Strings(ks)
+		for _, k := range ks {
+			fmt.Printf("%s\t%s\n", out[k], k)
+		}
+	}
+}
